@@ -7,9 +7,10 @@ allids = [json.loads(l)["id"] for l in open(os.path.join(V, "properties.jsonl"))
 na_reasons = json.load(open(os.path.join(V, "jsim", "not_applicable.json"))) if os.path.exists(os.path.join(V, "jsim", "not_applicable.json")) else {}
 baseline = json.load(open("/root/.vp/BASELINE.json"))["cmd"] if os.path.exists("/root/.vp/BASELINE.json") else ""
 hooks = json.load(open(os.path.join(V, "jsim", "hooks.json"))) if os.path.exists(os.path.join(V, "jsim", "hooks.json")) else {"source_commits": [], "add_only": True}
+claimed = [l.strip() for l in open(os.path.join(V, "jsim", "claimed.txt")) if l.strip() and not l.startswith("#")]
 checks = []
 for pid in allids:
-    if pid not in props:
+    if pid not in props or pid not in claimed:
         continue
     c = props[pid]
     checks.append({
@@ -25,7 +26,8 @@ for pid in allids:
     })
 engines = {}
 for pid, c in props.items():
-    engines.setdefault(c["pkg"], []).append(pid)
+    if pid in claimed:
+        engines.setdefault(c["pkg"], []).append(pid)
 m = {
     "version": 1,
     "setup_cmd": "./check --setup",
@@ -39,7 +41,7 @@ m = {
     "engines": [{"name": "jsim/" + k, "path": "/verif/jsim/harness/" + k, "serves_properties": sorted(v),
                  "kind_free_text": "deterministic simulation harness (seeded choice tape, fault injection, reference-model oracles)"} for k, v in sorted(engines.items())],
     "checks": checks,
-    "not_applicable": [{"property_id": p, "reason": na_reasons.get(p, "check not built yet in this session (work in progress; design in DESIGN.md §3)")} for p in allids if p not in props],
+    "not_applicable": [{"property_id": p, "reason": na_reasons.get(p, "check not built yet in this session (work in progress; design in DESIGN.md §3)")} for p in allids if p not in props or p not in claimed],
     "notes": "All checks are ./check <ID> <tier>; exit 0 clean, exit 1 + VIOLATION line, exit 2 machinery trouble. VERIF_SEED and VERIF_TIER are honoured. Known findings: /verif/known-findings.jsonl.",
 }
 json.dump(m, open(os.path.join(V, "MANIFEST.json"), "w"), indent=1)
